@@ -77,7 +77,7 @@ func c18probe(env *Env, src string, want bool) c18obs {
 }
 
 func runC18(c *Check, rng *rand.Rand) {
-	c.Rule = "clients bound to 127.0.0.2..9 (127.0.0.1 stays listed for the harness's own witness); random histories of whitelist file edits {add, remove, enable, disable, a version without the enable key, replace all, in-place rewrite, write-temp + rename over the file, rapid double edit}; after each edit the admitted set is polled (each source connects and immediately sends a pipeline) and must equal the file's set, stable for two consecutive polls, within 8 s; lane 0 runs with the delay hook authip.afterEnable armed (a reload takes 250 ms) and issues double edits 0-450 ms apart; rejected = closed without a single reply byte and nothing at any backend; bulk replacements: the list is replaced by one that shares 3 addresses with it (300-1500 loopback addresses leave, 0-1500 others enter) and afterwards EVERY address that left or entered is probed (none that left may still be served, none that entered still refused, 6 s later); distinct = (edit kind, write method, resulting set)"
+	c.Rule = "clients bound to 127.0.0.2..9 (127.0.0.1 stays listed for the harness's own witness); random histories of whitelist file edits {add, remove, empty the list while it stays enabled (nobody may be served), enable, disable, a version without the enable key, replace all, in-place rewrite, write-temp + rename over the file, rapid double edit}; after each edit the admitted set is polled (each source connects and immediately sends a pipeline) and must equal the file's set, stable for two consecutive polls, within 8 s; lane 0 runs with the delay hook authip.afterEnable armed (a reload takes 250 ms) and issues double edits 0-450 ms apart; rejected = closed without a single reply byte and nothing at any backend; bulk replacements: the list is replaced by one that shares 3 addresses with it (300-1500 loopback addresses leave, 0-1500 others enter) and afterwards EVERY address that left or entered is probed (none that left may still be served, none that entered still refused, 6 s later); distinct = (edit kind, write method, resulting set)"
 	c.Assumptions = []string{"'within a few seconds' restated as <= 8 s after the edit completed (file watcher latency is milliseconds)"}
 	lanes := c.Pick(2, 8)
 	edits := c.Pick(8, 25)
@@ -436,6 +436,9 @@ func c18lane(c *Check, rng *rand.Rand, lane, edits int) {
 				st.enable = true
 			case "enable":
 				st.enable = true
+			case "empty-enabled": // the list is emptied while the whitelist stays on: nobody is served
+				st.list = map[string]bool{}
+				st.enable = true
 			case "disable":
 				st.enable = false
 			case "omit-enable": // after an enabled version: a version without the key
@@ -519,7 +522,7 @@ func c18nextKind(rng *rand.Rand) string {
 	c18deckMu.Lock()
 	defer c18deckMu.Unlock()
 	if len(c18deck) == 0 {
-		c18deck = []string{"add", "remove", "swap-one", "enable", "disable", "omit-enable", "enable", "replace-all", "same", "double", "double-long-then-short", "remove-one-of-duplicates", "remove", "swap-one"}
+		c18deck = []string{"add", "remove", "empty-enabled", "swap-one", "enable", "disable", "omit-enable", "enable", "replace-all", "same", "double", "double-long-then-short", "remove-one-of-duplicates", "remove", "swap-one"}
 		rng.Shuffle(len(c18deck), func(i, j int) { c18deck[i], c18deck[j] = c18deck[j], c18deck[i] })
 	}
 	k := c18deck[0]
